@@ -47,6 +47,9 @@ enum Kind {
 struct SubSpec {
     kind: Kind,
     window: u64,
+    /// broadcast-lag runs: the first full window stays unacknowledged this long, so that the subscription blocks while
+    /// more than the broadcast channel's 1000 slots are published
+    stall_ms: u64,
 }
 
 #[derive(Default)]
@@ -100,6 +103,7 @@ async fn subscriber(world: Arc<Mutex<World>>, spec: Arc<SubSpec>, st: Arc<Mutex<
     let mut unacked: Vec<u64> = Vec::new();
     let mut hold_until: Option<Instant> = None;
     let mut held_this_window = false;
+    let mut holds_done = 0u32;
     loop {
         let ev = match tokio::time::timeout(Duration::from_millis(20), rx.recv()).await {
             Ok(Some(ev)) => Some(ev),
@@ -170,8 +174,10 @@ async fn subscriber(world: Arc<Mutex<World>>, spec: Arc<SubSpec>, st: Arc<Mutex<
         // a full window is sometimes left unacknowledged for 100 ms: anything delivered meanwhile exceeds the window
         if unacked.len() as u64 >= spec.window {
             match hold_until {
-                None if !held_this_window && rng.chance(1, 3) => {
-                    hold_until = Some(Instant::now() + Duration::from_millis(100));
+                // the first full window of a subscription (nothing acknowledged yet) one time in two, later ones rarely
+                None if !held_this_window && (if holds_done == 0 { spec.stall_ms > 0 || rng.chance(1, 2) } else { rng.chance(1, 40) }) => {
+                    hold_until = Some(Instant::now() + Duration::from_millis(if holds_done == 0 && spec.stall_ms > 0 { spec.stall_ms } else { 100 }));
+                    holds_done += 1;
                     held_this_window = true;
                     st.lock().unwrap().full_windows_held += 1;
                     continue;
@@ -181,7 +187,9 @@ async fn subscriber(world: Arc<Mutex<World>>, spec: Arc<SubSpec>, st: Arc<Mutex<
             }
         }
         // acknowledge with random lag and occasional stalls
-        if !unacked.is_empty() && (ev_is_none_or(&mut rng) || unacked.len() as u64 >= spec.window) {
+        // (a broadcast-lag subscriber lets its first window fill up before it acknowledges anything)
+        let fill_first = spec.stall_ms > 0 && holds_done == 0 && (unacked.len() as u64) < spec.window;
+        if !unacked.is_empty() && !fill_first && (ev_is_none_or(&mut rng) || unacked.len() as u64 >= spec.window) {
             held_this_window = false;
             let upto = if unacked.len() as u64 >= spec.window || rng.chance(1, 2) { *unacked.last().unwrap() } else { unacked[rng.usize_below(unacked.len())] };
             unacked.retain(|c| *c > upto);
@@ -313,8 +321,8 @@ async fn run_case(rep: &mut Report, cx: &mut Ctx<'_>, case_seed: u64, parts: &[P
         };
         let _ = len;
         drop(w);
-        let window = if lag_mode { 1000 } else { *rng.pick(&[1u64, 3, 50, 1000]) };
-        let spec = Arc::new(SubSpec { kind, window });
+        let window = if lag_mode { *rng.pick(&[20u64, 200]) } else { *rng.pick(&[1u64, 3, 50, 1000]) };
+        let spec = Arc::new(SubSpec { kind, window, stall_ms: if lag_mode { 8000 } else { 0 } });
         let st = Arc::new(Mutex::new(SubState::default()));
         let (ack_tx, ack_rx) = watch::channel(None);
         let (tx, rx) = mpsc::unbounded_channel();
@@ -326,7 +334,8 @@ async fn run_case(rep: &mut Report, cx: &mut Ctx<'_>, case_seed: u64, parts: &[P
         subs.push((spec, st, h));
     }
     // ---- live phase: writes and (mode B) confirmations in shuffled order with delays ------------------
-    let n_live = if lag_mode { 1200 + rng.usize_below(600) } else { 10 + rng.usize_below(40) };
+    let n_live = if lag_mode { 1800 + rng.usize_below(600) } else { 10 + rng.usize_below(40) };
+    let t_live = Instant::now();
     for i in 0..n_live {
         let pid = *rng.pick(parts);
         match cx.write(&mut rng, pid).await { Ok(ti) => { if cx.rf > 1 { unconfirmed.push(ti); } } Err(e) => { rep.inconclusive(format!("live write failed: {e}")); return; } }
@@ -337,6 +346,11 @@ async fn run_case(rep: &mut Report, cx: &mut Ctx<'_>, case_seed: u64, parts: &[P
             for ti in now { if let Err(e) = cx.confirm(ti).await { rep.inconclusive(e); return; } }
         }
         if !lag_mode && rng.chance(1, 4) { tokio::time::sleep(Duration::from_millis(rng.below(8))).await; }
+    }
+    if lag_mode {
+        rep.max("lag_run.live_phase_ms", t_live.elapsed().as_millis() as u64);
+        rep.count("lag_run.live_writes", n_live as u64);
+        rep.count("lag_run.live_phase_ms_total", t_live.elapsed().as_millis() as u64);
     }
     if cx.rf > 1 {
         let rest: Vec<usize> = unconfirmed.drain(..).collect();
@@ -416,7 +430,7 @@ async fn long_history_case(rep: &mut Report, cx: &mut Ctx<'_>, case_seed: u64, p
     }
     for ti in &tis[..hole] { if cx.confirm(*ti).await.is_err() { rep.inconclusive("confirm failed"); return; } }
     tokio::time::sleep(Duration::from_millis(50)).await;
-    let spec = Arc::new(SubSpec { kind: Kind::Stream(pid, pk, format!("long-{pid}"), Some(0)), window: 1000 });
+    let spec = Arc::new(SubSpec { kind: Kind::Stream(pid, pk, format!("long-{pid}"), Some(0)), window: 1000, stall_ms: 0 });
     let st = Arc::new(Mutex::new(SubState::default()));
     let (ack_tx, ack_rx) = watch::channel(None);
     let (tx, rx) = mpsc::unbounded_channel();
@@ -510,7 +524,10 @@ pub fn run(args: &Args, rep: &mut Report) {
             let k = 1 + rng.usize_below(3) as Pid;
             let parts: Vec<Pid> = (next_part..next_part + k).collect();
             next_part += k;
-            let lag_mode = thorough && case % 10 == 0;
+            // broadcast-lag runs (1800-2400 live writes against the 1000-slot channel while the subscribers leave their
+            // first full window unacknowledged for 8 s): every 10th run in thorough, the 5th and every 40th run of a shard in quick
+            let lag_mode = if thorough { case % 10 == 0 } else { case % 40 == 5 };
+            if lag_mode { rep.count("broadcast_lag_runs", 1); }
             run_case(rep, &mut cx, args.case_seed(case), &parts, lag_mode).await;
             if rep.violations.len() > 10 { break; }
         }
